@@ -179,7 +179,8 @@ int main(int argc, char **argv)
         ev.no = 0;
 
         int before = asan_reports;
-        alarm(20);
+        /* watchdog: 20 s per call; value sweeps executed inside an adapter get half an hour */
+        alarm((strncmp(ev.name, "sweep", 5) == 0 || strncmp(ev.name, "rnd", 3) == 0) ? 1800 : 20);
         in_exec = 1;
         adapter_exec(&ev);
         in_exec = 0;
